@@ -10,3 +10,4 @@ echo "== baseline with change"; python3 /verif/tools/baseline.py $WT 2>&1 | grep
 for c in $CHECKS; do
   echo "== check $c against the change"; TDDA_REPO=$WT /venv/bin/python /verif/harness/vcheck.py $c 2>&1 | grep -v "conda\|KNOWN-FINDING" | tail -4
 done
+echo "== restoring Generated/*.lean from /repo"; (cd /verif/harness && /venv/bin/python translate.py 2>&1 | grep -v Warn)
